@@ -32,6 +32,7 @@ Inductive site_class :=
 | ClsSettingsInsert  (* macro patch/replace: HashMap iterated into BTreeMap::insert, keys injective *)
 | ClsCratesInsert    (* macro crates: HashMap iterated into BTreeMap::insert, key = original name *)
 | ClsEnvSchemaPath   (* macro: CARGO_MANIFEST_DIR / current_dir locate the schema file *)
+| ClsFillingStack    (* value.rs FILLING: thread-local stack, push/pop bracketed by a drop guard; keys compared for equality only *)
 | ClsHookOnly.       (* typify-impl/src/verif.rs, feature verif-hooks: not in the product *)
 
 Definition St := mk_site.
@@ -61,7 +62,13 @@ Definition known_sites : list (site * site_class) := [
   (St "typify-impl/src/util.rs" "unique" "HashSet" "path:HashSet::new", ClsTypeMention);
   (St "typify-impl/src/util.rs" "unique" "HashSet" "bind:unique", ClsBinding);
   (St "typify-impl/src/util.rs" "unique" "HashSet" "call:unique.insert", ClsUniqueInsert);
-  (St "typify-impl/src/verif.rs" "<top>" "thread" "macro:thread_local!", ClsHookOnly);
+  (St "typify-impl/src/value.rs" "<top>" "thread" "macro:thread_local!", ClsFillingStack);
+  (St "typify-impl/src/value.rs" "<top>" "thread" "static:FILLING", ClsFillingStack);
+  (St "typify-impl/src/value.rs" "<top>" "state" "in-macro:thread_local:RefCell", ClsFillingStack);
+  (St "typify-impl/src/value.rs" "<top>" "state" "in-macro:thread_local:new", ClsFillingStack);
+  (St "typify-impl/src/value.rs" "FillingGuard::drop" "thread" "call:FILLING.with", ClsFillingStack);
+  (St "typify-impl/src/value.rs" "value_for_struct_props" "pointer-address" "cast:*constserde_json::Value", ClsFillingStack);
+  (St "typify-impl/src/value.rs" "value_for_struct_props" "thread" "call:FILLING.with", ClsFillingStack);
   (St "typify-macro/src/lib.rs" "<top>" "HashMap" "import:std::collections::HashMap", ClsImport);
   (St "typify-macro/src/lib.rs" "<struct MacroSettings>" "HashMap" "field:crates", ClsBinding);
   (St "typify-macro/src/lib.rs" "<struct MacroSettings>" "HashMap" "field:patch", ClsBinding);
@@ -79,7 +86,13 @@ Definition known_sites : list (site * site_class) := [
 ].
 Close Scope string_scope.
 
-Definition covered (s : site) : bool := existsb (fun k => site_eqb s (fst k)) known_sites.
+(* typify-impl/src/verif.rs is the verification hook file (cargo feature `verif-hooks`, off in the
+   product, add-only for all property builders): its thread-local / RefCell RECORDERS are covered
+   wholesale as ClsHookOnly; any other kind there (a hash collection, env, time, rand) is not *)
+Definition hook_only (s : site) : bool :=
+  String.eqb (s_file s) "typify-impl/src/verif.rs"%string &&
+  (String.eqb (s_kind s) "thread"%string || String.eqb (s_kind s) "state"%string).
+Definition covered (s : site) : bool := hook_only s || existsb (fun k => site_eqb s (fst k)) known_sites.
 Definition present (sites : list site) (k : site * site_class) : bool :=
   existsb (fun s => site_eqb s (fst k)) sites.
 
@@ -323,3 +336,80 @@ End Output.
 (* ------------------------------------------------------------------ *)
 Definition show_bool (b : bool) : string := if b then "true"%string else "false"%string.
 Definition show_keys {V} (m : list (string * V)) : string := String.concat ","%string (map fst m).
+
+(* ------------------------------------------------------------------ *)
+(* value.rs:402-462 (fix fd85c79 + 4ed7b48): the thread-local FILLING stack *)
+(* ------------------------------------------------------------------ *)
+(* `output_value` at one value position, abstracted to the shape of its calls.  A key is
+   (type id, address of the member's default value inside the type space); [body_of] is the
+   immutable type space (`&TypeSpace` for the whole rendering): what rendering that default does. *)
+Section Filling.
+  Variable T : Type.                 (* token *)
+  Variable key : Type.
+  Variable key_eqb : key -> key -> bool.
+
+  Inductive job :=
+  | JLeaf (t : list T)                      (* scalar / native: tokens, no stack access *)
+  | JNone                                   (* the value does not fit: output_value returns None, `?` drops the guards *)
+  | JPanic                                  (* a panic below: unwinding drops the guards (FillingGuard::drop) *)
+  | JNode (t : list T) (kids : list job)    (* nested output_value calls (present members, items), in order *)
+  | JFill (k : key) (fallback : list T).    (* absent member with its own schema default: value.rs:441-462 *)
+
+  Inductive outcome := ROk (t : list T) | RNone | RPanic.
+
+  Variable body_of : key -> job.
+
+  Definition fmem (k : key) (st : list key) : bool := existsb (key_eqb k) st.
+
+  (* returns the outcome AND the stack as left behind; None = out of fuel (artefact of the model) *)
+  Fixpoint frender (fuel : nat) (st : list key) (j : job) {struct fuel} : option (outcome * list key) :=
+    match fuel with
+    | O => None
+    | Datatypes.S f =>
+        match j with
+        | JLeaf t => Some (ROk t, st)
+        | JNone => Some (RNone, st)
+        | JPanic => Some (RPanic, st)
+        | JNode t kids =>
+            (fix go (ks : list job) (st : list key) (acc : list T) {struct ks} : option (outcome * list key) :=
+               match ks with
+               | [] => Some (ROk acc, st)
+               | k :: r =>
+                   match frender f st k with
+                   | Some (ROk o, st1) => go r st1 (acc ++ o)
+                   | other => other
+                   end
+               end) kids st t
+        | JFill k fb =>
+            if fmem k st then Some (ROk fb, st)              (* already being rendered: `Default::default()` *)
+            else match frender f (k :: st) (body_of k) with    (* push; FillingGuard *)
+                 | Some (r, st1) => Some (r, tl st1)          (* guard dropped: pop (normal return, `?`, unwinding) *)
+                 | None => None
+                 end
+        end
+    end.
+
+  (* consecutive top-level renderings on one thread: each starts with the stack the previous one left *)
+  Fixpoint frender_seq (fuel : nat) (st : list key) (js : list job) : list (option outcome) * list key :=
+    match js with
+    | [] => ([], st)
+    | j :: r =>
+        match frender fuel st j with
+        | Some (o, st1) => let '(os, st2) := frender_seq fuel st1 r in (Some o :: os, st2)
+        | None => let '(os, st2) := frender_seq fuel st r in (None :: os, st2)
+        end
+    end.
+End Filling.
+
+(* the same job with every key renamed (another process / another TypeSpace: other addresses) *)
+Fixpoint rename_job {T key key' : Type} (ren : key -> key') (j : job T key) : job T key' :=
+  match j with
+  | JLeaf _ _ t => JLeaf T key' t
+  | JNone _ _ => JNone T key'
+  | JPanic _ _ => JPanic T key'
+  | JNode _ _ t kids => JNode T key' t (map (rename_job ren) kids)
+  | JFill _ _ k fb => JFill T key' (ren k) fb
+  end.
+Definition rename_result {T key key' : Type} (ren : key -> key') (r : option (outcome T * list key))
+  : option (outcome T * list key') :=
+  match r with Some (o, st) => Some (o, map ren st) | None => None end.
